@@ -15,7 +15,7 @@ from ..vloop import VLoop
 from .c17 import gen_schedule
 
 THEOREMS = ["C18_lock_released_at_exit", "C18_others_proceed", "C18_single_version", "C18_never_mixed",
-            "C18_lock_leak_refuted", "C18_lock_leak_repaired"]
+            "C18_undisturbed_fetch_completes", "C18_fetch_examples", "C18_lock_leak_refuted", "C18_lock_leak_repaired"]
 
 PRELUDE = ("From Coq Require Import List Bool Arith.\nFrom RV Require Import M_Transfer.\nImport ListNotations.\n"
            "Set Printing Width 1000000.\nSet Printing Depth 1000000.\n"
@@ -40,8 +40,8 @@ class Controller:
         self.plan = {}            # call index -> "raise" | "hang" | ("bump", zone)
         self.hang = None
 
-    def new_schedule(self, z, bump=True):
-        days = gen_schedule(self.rng, False, 3)
+    def new_schedule(self, z, bump=True, days=None):
+        days = days or gen_schedule(self.rng, False, 3)
         full = {"zone_idx": f"{z:02X}", "schedule": days}
         self.zones[z] = (days, self.S.full_sched_to_fragz(full))
         if bump:
@@ -61,6 +61,8 @@ class Controller:
             await asyncio.get_running_loop().create_future()   # never answers: only the caller's timeout ends this
         if isinstance(act, tuple) and act[0] == "bump":
             self.new_schedule(act[1])
+        if isinstance(act, tuple) and act[0] == "shrink":
+            self.new_schedule(act[1], days=small_schedule(self.rng))
         await asyncio.sleep(1 / 64)
         now = _dt.datetime.now()
         if cmd.code == "0006":
@@ -72,6 +74,12 @@ class Controller:
         f = frs[k - 1]
         pl = f"{zone:02X}200008{len(f) // 2:02X}{k:02X}{len(frs):02X}{f}"
         return Packet.from_port(now, f"045 RP --- {CTL} 18:000730 --:------ 0404 {len(pl) // 2:03d} {pl}")
+
+
+def small_schedule(rng):
+    """A schedule that fits in ONE fragment (one switchpoint a day, the same every day)."""
+    tod, sp = f"{rng.randrange(5, 23):02d}:{rng.choice((0, 10, 20, 30, 40, 50)):02d}", rng.randrange(10, 50) / 2
+    return [{"day_of_week": d, "switchpoints": [{"time_of_day": tod, "heat_setpoint": sp}]} for d in range(7)]
 
 
 def episode(scn):
@@ -105,10 +113,13 @@ def episode(scn):
         zones = {int(z.idx, 16): z for z in gwy.tcs.zones}
         results = []
 
-        async def fetch(z, timeout):
+        async def fetch(z, timeout, force=False, probe=False):
             try:
-                r = await zones[z]._schedule.get_schedule(force_io=scn.get("force_io", False), timeout=timeout)
+                n0 = len(versions_seen[z])
+                r = await zones[z]._schedule.get_schedule(force_io=force or scn.get("force_io", False), timeout=timeout)
                 ok = any(r == d for d in versions_seen[z])
+                if ok and probe and r != versions_seen[z][-1] and len(versions_seen[z]) == n0:
+                    return ("stale-schedule", r)      # an undisturbed, forced fetch must return the CURRENT schedule
                 return ("completed" if ok else "wrong-schedule", r)
             except TimeoutError as err:
                 return ("lock-timeout" if "lock" in str(err) else "abandoned", None)
@@ -119,14 +130,25 @@ def episode(scn):
         versions_seen = {z: [ctl.zones[z][0]] for z in ctl.zones}
         orig_new = ctl.new_schedule
 
-        def new_schedule(z, bump=True):
-            orig_new(z, bump)
+        def new_schedule(z, bump=True, days=None):
+            orig_new(z, bump, days)
             versions_seen.setdefault(z, []).append(ctl.zones[z][0])
 
         ctl.new_schedule = new_schedule
+        for z in scn.get("small", ()):
+            ctl.new_schedule(z, bump=False, days=small_schedule(ctl.rng))
+            versions_seen[z] = [ctl.zones[z][0]]
         for step in scn["steps"]:
             if step[0] == "fetch":
                 results.append(await fetch(step[1], step[2]))
+            elif step[0] == "probe":
+                results.append(await fetch(step[1], step[2], force=True, probe=True))
+            elif step[0] == "bump":
+                ctl.new_schedule(step[1])
+                continue
+            elif step[0] == "shrink":
+                ctl.new_schedule(step[1], days=small_schedule(ctl.rng))
+                continue
             elif step[0] == "together":
                 results.extend(await asyncio.gather(*(fetch(z, step[2]) for z in step[1])))
             obs.setdefault("lock_after", []).append(gwy.tcs.zone_lock_idx)
@@ -144,6 +166,130 @@ def episode(scn):
     return obs
 
 
+def reassembly(seed, n_seq, n_fetch):
+    """Drive the real Schedule._update_payload_set / _get_schedule with fragments of several VERSIONS of one zone's
+    schedule (same and different fragment counts, one-fragment versions); returns what the model must reproduce."""
+    import random  # noqa: PLC0415
+
+    import ramses_rf.system.schedule as S  # noqa: PLC0415
+    from ramses_rf import Gateway  # noqa: PLC0415
+    from ramses_tx.message import Message  # noqa: PLC0415
+    from ramses_tx.packet import Packet  # noqa: PLC0415
+
+    rnd = random.Random(seed)
+    loop = VLoop()
+    asyncio.set_event_loop(loop)
+    out = {"feeds": [], "fetches": [], "errors": []}
+
+    # versions: group candidate schedules by fragment count; keep those whose fragments differ pairwise at every slot
+    cands = {}
+    for _ in range(40):
+        days = gen_schedule(rnd, False, 3)
+        frs = S.full_sched_to_fragz({"zone_idx": "00", "schedule": days})
+        cands.setdefault(len(frs), []).append((days, frs))
+    main_t = max(cands, key=lambda t: len(cands[t]))
+    vers = cands[main_t][:3] + [v for t, l in sorted(cands.items()) if t != main_t for v in l[:1]][:2]
+    for _ in range(2):
+        days = small_schedule(rnd)
+        vers.append((days, S.full_sched_to_fragz({"zone_idx": "00", "schedule": days})))
+    seen = set()
+    versions = []
+    for days, frs in vers:
+        if any((k, f) in seen for k, f in enumerate(frs)):
+            continue
+        seen |= set(enumerate(frs))
+        versions.append((days, frs))
+    out["totals"] = [len(f) for _, f in versions]
+
+    def payload(v, k):
+        frs = versions[v][1]
+        f = frs[k]
+        pl = f"00200008{len(f) // 2:02X}{k + 1:02X}{len(frs):02X}{f}"
+        return Message(Packet.from_port(_dt.datetime.now(), f"045 RP --- {CTL} 18:000730 --:------ 0404 {len(pl) // 2:03d} {pl}")).payload
+
+    def tag(p):
+        if p is None:
+            return None
+        for v, (_, frs) in enumerate(versions):
+            k = p["frag_number"] - 1
+            if k < len(frs) and frs[k] == p["fragment"] and p["total_frags"] == len(frs):
+                return v
+        return -1
+
+    def assembled(sched):
+        fs = sched._full_schedule
+        if not fs:
+            return None
+        for v, (days, _) in enumerate(versions):
+            if fs.get("schedule") == days:
+                return v
+        return -1
+
+    async def main():
+        txt = f"2026-01-01T12:00:00.000000 045 RP --- {CTL} 18:111111 --:------ 0005 004 00080100\n"
+        gwy = Gateway(None, input_file=io.TextIOWrapper(io.BytesIO(txt.encode())), config={"disable_discovery": True})
+        await gwy.start()
+        for _ in range(5):
+            await asyncio.sleep(0)
+        zone = gwy.tcs.zones[0]
+        # (a) arbitrary fragment sequences through _update_payload_set
+        for _ in range(n_seq):
+            sched = S.Schedule(zone)
+            seq = []
+            sticky = rnd.randrange(len(versions))
+            for _ in range(rnd.randrange(1, 14)):
+                v = sticky if rnd.random() < 0.6 else rnd.randrange(len(versions))
+                seq.append((v, rnd.randrange(len(versions[v][1]))))
+            try:
+                for v, k in seq:
+                    sched._payload_set = sched._update_payload_set(sched._payload_set, payload(v, k))
+                out["feeds"].append((seq, [tag(p) for p in sched._payload_set], assembled(sched)))
+            except Exception as err:  # noqa: BLE001
+                out["errors"].append(("feed", seq, type(err).__name__ + ": " + str(err)[:80]))
+                out["feeds"].append((seq, None, None))
+        # (b) the fetch loop from arbitrary stale sets, against a controller that holds one version throughout
+        for _ in range(n_fetch):
+            sched = S.Schedule(zone)
+            zone._schedule = sched
+            cur = rnd.randrange(len(versions))
+            n = rnd.choice((1, 2, 3, 4, len(versions[cur][1]), len(versions[cur][1])))
+            stale = []
+            for k in range(n):
+                opts = [v for v in range(len(versions)) if k < len(versions[v][1])]
+                v = rnd.choice(opts) if opts and rnd.random() < 0.75 else None
+                stale.append(v)
+            sched._payload_set = [None if v is None else payload(v, k) for k, v in enumerate(stale)]
+            calls = []
+
+            async def send(cmd, **kw):
+                await asyncio.sleep(1 / 64)
+                if cmd.code == "0006":
+                    return Packet.from_port(_dt.datetime.now(), f"045 RP --- {CTL} 18:000730 --:------ 0006 004 00050007")
+                k = int(cmd.payload[10:12], 16)
+                calls.append(k)
+                frs = versions[cur][1]
+                f = frs[min(k, len(frs)) - 1]
+                pl = f"00200008{len(f) // 2:02X}{min(k, len(frs)):02X}{len(frs):02X}{f}"
+                return Packet.from_port(_dt.datetime.now(), f"045 RP --- {CTL} 18:000730 --:------ 0404 {len(pl) // 2:03d} {pl}")
+
+            gwy.async_send_cmd = send
+            try:
+                r = await sched.get_schedule(force_io=True, timeout=60)
+                got = next((v for v, (days, _) in enumerate(versions) if r == days), -1)
+                out["fetches"].append((stale, cur, got, len(calls)))
+            except Exception as err:  # noqa: BLE001
+                out["errors"].append(("fetch", (stale, cur), type(err).__name__ + ": " + str(err)[:80]))
+                out["fetches"].append((stale, cur, -2, len(calls)))
+        await gwy.stop()
+
+    try:
+        loop.run_until_complete(main())
+    finally:
+        asyncio.set_event_loop(None)
+        loop.close()
+    return out
+
+
 def run(ctx: Ctx) -> None:
     logging.disable(logging.CRITICAL)
     rng = ctx.rng
@@ -157,12 +303,17 @@ def run(ctx: Ctx) -> None:
     built = ctx.build("C18", THEOREMS)
     scns = []
     seeds = [rng.randrange(10**6) for _ in range(3 if thorough else 1)]
+    PROBES = [("probe", 0, 400), ("probe", 1, 400)]     # afterwards: the SAME zone and another zone, undisturbed
     for seed in seeds:
         base = episode({"seed": seed, "plan": {}, "steps": [("fetch", 0, 30)]})
         n_aw = base["calls"]                      # awaits of an undisturbed fetch: version query + fragments
         for pos in range(n_aw):
-            for kind in ("raise", "hang", ["bump", 0], ["bump", 1]):
-                scns.append({"seed": seed, "plan": {str(pos): kind}, "steps": [("fetch", 0, 30), ("fetch", 1, 400)], "n_aw": n_aw, "pos": pos, "kind": kind})
+            for kind in ("raise", "hang", ["bump", 0], ["bump", 1], ["shrink", 0]):
+                scns.append({"seed": seed, "plan": {str(pos): kind}, "steps": [("fetch", 0, 30)] + PROBES, "n_aw": n_aw, "pos": pos, "kind": kind})
+        # the schedule changes BETWEEN two transfers (same number of fragments / down to one fragment / up again)
+        scns.append({"seed": seed, "plan": {}, "steps": [("fetch", 0, 30), ("bump", 0)] + PROBES, "n_aw": n_aw, "pos": None, "kind": "change-between"})
+        scns.append({"seed": seed, "plan": {}, "steps": [("fetch", 0, 30), ("shrink", 0)] + PROBES + [("bump", 0)] + PROBES, "n_aw": n_aw, "pos": None, "kind": "shrink-between"})
+        scns.append({"seed": seed, "plan": {}, "small": [0, 1], "steps": [("fetch", 0, 30)] + PROBES, "n_aw": n_aw, "pos": None, "kind": "one-fragment"})
         scns.append({"seed": seed, "plan": {}, "steps": [("together", [0, 1, 2], 400)], "n_aw": n_aw, "pos": None, "kind": "concurrent"})
         scns.append({"seed": seed, "plan": {"1": "raise"}, "steps": [("together", [0, 1], 400), ("fetch", 2, 400)], "n_aw": n_aw, "pos": 1, "kind": "concurrent+raise"})
         scns.append({"seed": seed, "plan": {"2": "hang"}, "steps": [("together", [0, 1], 20), ("fetch", 2, 400)], "n_aw": n_aw, "pos": 2, "kind": "concurrent+hang"})
@@ -178,15 +329,22 @@ def run(ctx: Ctx) -> None:
             ctx.violation("later-transfer-blocked", "a later transfer for another zone could not obtain the lock", case, "fault-sequence")
         if "wrong-schedule" in res:
             ctx.violation("mixed-or-wrong-schedule", "a fetch returned a schedule that the controller never had for that zone", case, "fault-sequence")
-        if len(s["steps"]) == 2 and s["steps"][1][0] == "fetch" and res[-1] != "completed":
-            ctx.violation("probe-transfer-fails", "after a disturbed transfer, an undisturbed transfer of another zone does not complete", case, "fault-sequence")
+        fetches = [st for st in s["steps"] if st[0] in ("fetch", "probe")]
+        for st, r in zip(fetches, res):
+            if st[0] == "probe" and r == "stale-schedule":
+                ctx.violation("probe-returns-stale-schedule", "an undisturbed, forced fetch returns an earlier version of the zone's schedule, not the controller's current one", case, "fault-sequence")
+            elif st[0] == "probe" and r != "completed":
+                which = "the same zone" if st[1] == 0 else "another zone"
+                ctx.violation(f"probe-transfer-fails:{'same' if st[1] == 0 else 'other'}-zone", f"after a disturbed transfer or a change on the controller, an undisturbed transfer of {which} does not complete", case, "fault-sequence")
+        if s["kind"] in ("change-between", "shrink-between", "one-fragment") and res[0] != "completed":
+            ctx.violation("undisturbed-transfer-fails", "an undisturbed first transfer does not return the controller's schedule", case, "fault-sequence")
         if s["kind"] == "concurrent" and any(r != "completed" for r in res):
             ctx.violation("concurrent-transfers-fail", "undisturbed concurrent transfers of several zones do not all complete", case, "fault-sequence")
         # model: only the single-fault, sequential episodes (fault kinds raise/hang map to Raises/Cancelled)
         if s["kind"] in ("raise", "hang"):
             faults = ["Proceed"] * s["pos"] + ["Raises" if s["kind"] == "raise" else "Cancelled"]
             probe = ["Proceed"] * 4
-            coq_cases.append(f"show (transfers true None [(0, [{'; '.join(faults)}]); (1, [{'; '.join(probe)}])])")
+            coq_cases.append(f"show (transfers true None [(0, [{'; '.join(faults)}]); (0, [{'; '.join(probe)}]); (1, [{'; '.join(probe)}])])")
             code = {"completed": 1, "abandoned": 3, "lock-timeout": 4}
             impl_rows.append([99 if o["lock_after"][-1] is None else int(o["lock_after"][-1], 16)]
                              + [code.get(r, 2 if r.startswith("failed") else 9) for r in res])
@@ -203,6 +361,51 @@ def run(ctx: Ctx) -> None:
                            f"{len(bad)} of {len(impl_rows)} differ; first: {coq_cases[bad[0]]} model {rows[bad[0]]} implementation {impl_rows[bad[0]]}" if bad else "")
     else:
         ctx.obligation("correspondence:lock-discipline", False, "correspondence", "model not built")
+
+    # ---- the reassembly itself: model vupdate/vfeed/fetch against the real _update_payload_set / _get_schedule
+    ra = reassembly(rng.randrange(10**6), 600 if thorough else 150, 300 if thorough else 80)
+    tot = ra["totals"]
+    for e in ra["errors"]:
+        ctx.violation(f"reassembly-raises:{e[0]}:{e[2].split(':')[0]}", "reassembling fragments (any versions, any order) raises instead of starting over", {"versions_fragment_counts": tot, "input": e[1], "error": e[2]}, "fragment-sequence")
+    opt = lambda v: "None" if v is None else f"Some {v}"   # noqa: E731
+    feed_cases = ["vshow (vfeed [None] None [" + "; ".join(f"({tot[v]}, {k}, {v})" for v, k in seq) + "])" for seq, _, _ in ra["feeds"]]
+    fetch_cases = ["fshow (fetch [" + "; ".join(opt(v) for v in stale) + f"] {tot[cur]} {cur})" for stale, cur, _, _ in ra["fetches"]]
+    for seq, slots, last in ra["feeds"]:
+        ctx.case(("feed", repr(seq)), len({v for v, _ in seq}) > 1, "reassembly:feed")
+        if last == -1 or (slots and -1 in slots):
+            ctx.violation("assembled-unknown-schedule", "a schedule was assembled that is no version the controller ever had", {"versions_fragment_counts": tot, "fragments(version,slot)": seq, "slots": slots}, "fragment-sequence")
+    for stale, cur, got, n in ra["fetches"]:
+        ctx.case(("fetchloop", repr(stale), cur), any(v is not None and v != cur for v in stale), "reassembly:fetch-loop")
+        if got != cur:
+            ctx.violation("fetch-from-stale-set-fails" if got == -2 else "fetch-from-stale-set-wrong-version",
+                          "an undisturbed fetch that starts from stale fragments does not end with the controller's current schedule",
+                          {"versions_fragment_counts": tot, "stale_slots(version)": stale, "controller_version": cur, "got": got, "exchanges": n}, "fragment-sequence")
+        elif n > 2 * tot[cur]:
+            ctx.violation("fetch-needs-more-than-2T-exchanges", "an undisturbed fetch needs more fragment exchanges than the proved bound", {"stale": stale, "cur": cur, "exchanges": n}, "fragment-sequence")
+    if built:
+        pre = PRELUDE + ("Definition vo (o : option nat) : nat := match o with None => 0 | Some v => S v end.\n"
+                         "Definition vshow (r : vset * option nat) : list nat := vo (snd r) :: map vo (fst r).\n"
+                         "Definition fshow (r : fres) : list nat := match r with Got w n => [1; w; n] | Stuck => [2] | OutOfFuel => [3] end.\n")
+        files = {"ra": pre + "".join(f"Eval vm_compute in ({c}).\n" for c in feed_cases + fetch_cases)}
+        rc, out = common.coq_eval("C18r", files, timeout=300)["ra"]
+        if rc:
+            ctx.obligation("correspondence:reassembly", False, "correspondence", out[-400:])
+            ctx.obligation("correspondence:fetch-loop", False, "correspondence", out[-400:])
+        else:
+            rows = [eval(o.replace(";", ","), {"__builtins__": {}}) for o in re.findall(r"=\s*(\[.*?\])\s*:\s*list nat", out, flags=re.S)]  # noqa: S307
+            vo = lambda v: 0 if v is None else v + 1   # noqa: E731
+            exp_feed = [None if slots is None else [vo(last)] + [vo(x) for x in slots] for _, slots, last in ra["feeds"]]
+            exp_fetch = [[1, got, n] if got >= 0 else [9] for _, _, got, n in ra["fetches"]]
+            ok_len = len(rows) == len(exp_feed) + len(exp_fetch)
+            badf = [i for i, (a, b) in enumerate(zip(rows, exp_feed)) if list(a) != b]
+            badl = [i for i, (a, b) in enumerate(zip(rows[len(exp_feed):], exp_fetch)) if list(a) != b]
+            ctx.obligation("correspondence:reassembly", ok_len and not badf, "correspondence",
+                           f"{len(badf)} of {len(exp_feed)} fragment sequences differ; first: {feed_cases[badf[0]]} model {rows[badf[0]]} implementation {exp_feed[badf[0]]} (fragment counts {tot})" if badf else "")
+            ctx.obligation("correspondence:fetch-loop", ok_len and not badl, "correspondence",
+                           f"{len(badl)} of {len(exp_fetch)} fetches differ; first: {fetch_cases[badl[0]]} model {rows[len(exp_feed) + badl[0]]} implementation {exp_fetch[badl[0]]} (fragment counts {tot})" if badl else "")
+    else:
+        ctx.obligation("correspondence:reassembly", False, "correspondence", "model not built")
+        ctx.obligation("correspondence:fetch-loop", False, "correspondence", "model not built")
 
 
 def replay(case: dict) -> int:
